@@ -108,8 +108,10 @@ def runCalls (p : Params) : St → List (List Nat) → St × List (List Nat)
 
 Only for the enabled case.  Checks, for outputs `o` of pre-processed inputs `v`:
 * `o ≡ v (mod twoPi)`;
-* each step is either a reduced step (`lower ≤ adj ≤ upper`, `adj ≡ v-step`) or lands on
-  the home offset (a reset);
+* each step is either a reduced step (`lower ≤ adj ≤ upper`, `adj ≡ v-step`) or an automatic
+  reset: it lands on the home offset AND the configured number of consecutive samples away from
+  home has been reached (`away ≥ resetAfter` before this sample) — a premature return to home is
+  a violation of the step rule;
 * never more than `resetAfter` consecutive samples away from the home offset.
 -/
 def offsetOf (v o : Nat) : Nat := (o + 65536 - v) % 65536
@@ -122,7 +124,8 @@ def chkFrom (p : Params) : (prevV prevO : Nat) → (away : Int) → List Nat →
     let adj := toInt16 ((o : Int) - po)
     let stepOk := p.lower ≤ adj ∧ adj ≤ p.upper ∧ (adj - ((v : Int) - pv)) % p.twoPi = 0
     let away' := if home then 0 else away + 1
-    modOk && (home || decide stepOk) && decide (away' ≤ p.resetAfter) && chkFrom p v o away' vs os
+    modOk && (decide stepOk || (home && decide (away ≥ p.resetAfter))) && decide (away' ≤ p.resetAfter) &&
+      chkFrom p v o away' vs os
   | _, _, _, _, _ => false
 
 def chk (p : Params) (s0 : St) (vs os : List Nat) : Bool :=
